@@ -47,7 +47,7 @@ Theorem latency_one lat jit ps draws at_ (c : chunk) fuel d ds :
 Proof.
   intros Hf Hd s1 r. subst s1 r. cbn [on_input]. rewrite Hd. cbn [fst].
   destruct fuel as [|[|f]]; try lia.
-  cbn [stage_emit mode_of on_timer on_sent].
+  cbn [stage_emit mode_of on_sent]. unfold on_timer. cbn [on_timer_gen on_sent].
   replace (at_ + (d - (at_ - cts c))) with (cts c + d) by lia.
   destruct f; unfold final_st; simpl; auto.
 Qed.
